@@ -668,6 +668,16 @@ func main() {
 		longLiteral(fmt.Sprintf("two literals of %d bytes each", m/2), []string{a(m / 2), a(m / 2)}, false)
 		longLiteral(fmt.Sprintf("two literals of %d bytes together", m-1), []string{a(m / 2), a(m/2 - 1)}, false)
 		longLiteral(fmt.Sprintf("two literals of %d bytes together", m+1), []string{a(m / 2), a(m/2 + 1)}, true)
+		// brackets INSIDE a literal are characters, not nesting: as many as the parser's nesting limit and more (seeded
+		// wave 5: a pre-scan of the raw text counted them)
+		d := excellent.MaxParseDepth
+		for _, br := range []string{"(", "[", ")", "]", "([", "(\"", "\\("} {
+			for _, n := range []int{d - 1, d, d + 1, 2*d + 7} {
+				longLiteral(fmt.Sprintf("one literal of %d x %q", n, br), []string{strings.Repeat(br, n)}, false)
+			}
+		}
+		longLiteral(fmt.Sprintf("literals with %d open brackets between them", d+1), []string{strings.Repeat("(", d/2+1), "x", strings.Repeat("[", d/2+1)}, false)
+		longLiteral(fmt.Sprintf("a literal of %d x \"(\" next to one that closes them", d+1), []string{strings.Repeat("(", d+1), strings.Repeat(")", d+1)}, false)
 	}
 	for _, s := range []string{`\`, `a\`, `\\`, `"`, `\"`, `"\`, `)`, `(`, `@`, `@(`, `@foo`, "\n", "\x01", "😀", "", `a"b\c`, `\\\`, `")`, `\")`} {
 		o2(s)
